@@ -6,6 +6,7 @@ import SimuVerif.Model.TissueR
 import SimuVerif.Model.TissueP
 import SimuVerif.Model.TissueD
 import SimuVerif.Model.TissueD2
+import SimuVerif.Model.DaughtersOkCheck
 /-
   Model driver of C14 (assembled iteration of a single free cell): runs `Pipeline.cellIteration` at `Float`, i.e. the
   very definition the theorems of Properties/C14Pipeline.lean are about, from an initial state taken from the first
@@ -749,11 +750,27 @@ def pTissueD2 : P (ConstsTR Float × Nat × Nat × StateTP Float × List DIRec) 
         { base := { iter := it, time := time, fileNo := Int.ofNat fileNo, cells := (cells.toList.map (·.2)), defined := true },
           idents := cells.toList.map (·.1), maxId := maxId }, recs.toList)
 
+/-- over the executed divisions of one round (the loop of `eventsGo`): how many satisfy the per-division condition
+    `daughtersOkB` of Properties/C14DivisionInvariants.lean (held, not met) -/
+def dokGo (fn : Fn Float) (K : ConstsTR Float) : List (CellTR Float) → List (DivIn Float) → Nat × Nat
+  | [], _ => (0, 0)
+  | c :: cs, ins =>
+    if readyD c then
+      match ins with
+      | [] => (0, 0)
+      | inp :: rest =>
+        let r := dokGo fn K cs rest
+        match divideCellM fn K c inp with
+        | some _ => if daughtersOkB fn c inp then (r.1 + 1, r.2) else (r.1, r.2 + 1)
+        | none => r
+    else dokGo fn K cs ins
+
 def simulate (out : IO.FS.Stream) (K : ConstsTR Float) (n every : Nat) (s0 : StateTP Float) (recs : List DIRec) : IO Unit := do
   let fn := Fn.float
   let fx := FX.float
   let P := Tissue.cparams K.base
-  out.putStrLn s!"H setup {if 0.0 ≤ K.base.delta && 0.0 < P.padding && 0.0 < P.voxel then 1 else 0}"
+  -- `# cok0`: how many cells of the INITIAL state pass the Boolean test of the mesh invariants (`Remesh.cellOkB`)
+  out.putStrLn s!"H setup {if 0.0 ≤ K.base.delta && 0.0 < P.padding && 0.0 < P.voxel then 1 else 0} # cok0 {(s0.base.cells.filter fun c => cellOkB c.mesh).length} {s0.base.cells.length}"
   out.putStrLn s!"H endPhases {if endPhases == [Pop.Phase.stats, Pop.Phase.remove, Pop.Phase.renumber] then 1 else 0}"
   out.putStrLn s!"H stageOrder {if Gen.Division.stageOrder == ["rebase", "centroid", "axis", "addpts", "divfaces", "coarse", "mapxy", "tri", "mapback", "daughters", "refine1", "refine2", "target1", "target2", "rebase1", "rebase2"] then 1 else 0}"
   let mut s := s0
@@ -776,6 +793,7 @@ def simulate (out : IO.FS.Stream) (K : ConstsTR Float) (n every : Nat) (s0 : Sta
         -- `tissueIterationD2 s ins` is, by definition, `tissueIterationD s (eventsD2 fn K b1 ins)`
         let ev := eventsD2 fn K b1 ins
         let insOk := insOkD2 fn K b1 ins
+        let dok : Nat × Nat := if dividesNow b1.iter then dokGo fn K b1.cells ins else (0, 0)
         -- the centroid the model cuts through, per ready cell (for the harness' `DA` line)
         if dividesNow b1.iter then
           for c in b1.cells.filter readyD do
@@ -801,10 +819,10 @@ def simulate (out : IO.FS.Stream) (K : ConstsTR Float) (n every : Nat) (s0 : Sta
         | .ok b3, some r =>
           let b := physFrom K b3 r
           let rm := removedPositions b.cells
-          out.putStrLn s!"O {s.base.iter} {b01 ok} {nready} {ev.length} {rm.length} {ns} {nm} {b01 rebased} {b01 insOk} {ins.length}"
+          out.putStrLn s!"O {s.base.iter} {b01 ok} {nready} {ev.length} {rm.length} {ns} {nm} {b01 rebased} {b01 insOk} {ins.length} # dok {dok.1} {dok.2}"
           s := removalP { s2 with base := b }
         | .error e, _ =>
-          out.putStrLn s!"O {s.base.iter} {b01 ok} {nready} {ev.length} 0 {ns} {nm} {b01 rebased} {b01 insOk} {ins.length}"
+          out.putStrLn s!"O {s.base.iter} {b01 ok} {nready} {ev.length} 0 {ns} {nm} {b01 rebased} {b01 insOk} {ins.length} # dok {dok.1} {dok.2}"
           out.putStrLn s!"X {e.name}"
           stop := true
         | _, _ => stop := true
